@@ -16,3 +16,45 @@ Check (C05_search_built_eq_scan : forall b secs, (2 <= b)%nat -> secs <> [] -> s
     forall q qs qe, map (fun s => (s_off s, s_size s)) (search_tree q qs qe t) = scan secs q qs qe).
 Check (C05_build_empty : forall b, (0 < b)%nat -> build b [] = Ok (Leaf [], 0%nat)).
 End PinC05.
+
+(* second half of C05: bytes written, read back by the pointer-chasing search *)
+From BT Require Base.LE Proofs.RTreeCodec Proofs.RTreeSearch Proofs.RTreeShape Proofs.RTreeLayout.
+Module PinC05Bytes.
+Import Base.LE Model.RTree Proofs.RTreeAbs Proofs.RTreeBuild Proofs.RTreeCodec Proofs.RTreeSearch
+  Proofs.RTreeShape Proofs.RTreeLayout Properties.C05.
+Local Open Scope N_scope.
+Check (C05_dec_enc_le : forall w x, x < 256 ^ N.of_nat w -> dec_le (enc_le w x) = x).
+Check (C05_read_leaf : forall img off l, has_at img off (leaf_bytes l) -> Nlen l < U16 -> Forall sect_ok l ->
+  read_node false img off = Ok (PLeaf (map li_of l))).
+Check (C05_read_inner : forall img off items, has_at img off (inner_bytes items) -> Nlen items < U16 ->
+  Forall (fun it => span_ok (fst it) /\ snd it < U64) items ->
+  read_node false img off = Ok (PInner items)).
+Check (C05_search_represented : forall img q qs qe h t root, rep h img root t ->
+  forall fuel, (tsize t < fuel)%nat ->
+    search_bytes fuel false img root q qs qe = Ok (blocks_of (search_tree q qs qe t))).
+Check (C05_chunks_all_but_last_full : forall (b : nat) (l : list sect), (0 < b)%nat ->
+  abl (fun c => length c = b) (chunks b l)).
+Check (C05_built_shape : forall b secs t lv, (0 < b)%nat -> secs <> [] -> Forall sect_ok secs ->
+  build b secs = Ok (t, lv) ->
+  height lv t /\ forall d, (d <= lv)%nat ->
+    abl (fun n => nsize n = nfull (N.of_nat b) d) (level_nodes lv d t) /\ Forall (node_ok b) (level_nodes lv d t)).
+Check (C05_layout_represents : forall (b ips pos : N) (secs : list sect) t levels,
+  0 < b < U16 -> secs <> [] -> Forall sect_ok secs ->
+  build (N.to_nat b) secs = Ok (t, levels) ->
+  exists bs, rtree_bytes b ips pos t levels (Nlen secs) = Ok bs
+    /\ 48 + 4 * N.of_nat (tsize t) <= Nlen bs
+    /\ (pos + Nlen bs <= U64 -> forall pre post, Nlen pre = pos ->
+          rep levels (pre ++ bs ++ post) (pos + 48) t)).
+Check (C05_search_bytes_eq_scan : forall (b ips pos : N) (secs : list sect),
+  2 <= b <= 65535 -> secs <> [] -> sorted_starts (map sect_span secs) -> Forall sect_ok secs ->
+  exists bs levels, write_index b ips pos secs = Ok (bs, levels)
+    /\ (pos + Nlen bs <= U64 ->
+        forall pre post q qs qe fuel, Nlen pre = pos -> (length bs <= fuel)%nat ->
+          search_bytes fuel false (pre ++ bs ++ post) (pos + 48) q qs qe = Ok (scan secs q qs qe))).
+(* the definitions the statements rest on, pinned by value *)
+Check (eq_refl : U16 = 65536).
+Check (eq_refl : U32 = 4294967296).
+Check (eq_refl : U64 = 18446744073709551616).
+Check (eq_refl : sect_ok = fun s => s_chrom s < U32 /\ s_start s < U32 /\ s_end s < U32 /\ s_off s < U64 /\ s_size s < U64).
+Check (eq_refl : has_at = fun img off x => exists A B, img = A ++ x ++ B /\ length A = N.to_nat off).
+End PinC05Bytes.
